@@ -28,6 +28,11 @@ def ident():
 def app(environ, start_response):
     path = environ.get("PATH_INFO", "/")
     q = parse_qs(environ.get("QUERY_STRING", ""))
+    if q.get("envdump"):
+        body = ("SN=%s|PI=%s|QS=%s|RAW=%s|" % (environ.get("SCRIPT_NAME"), environ.get("PATH_INFO"), environ.get("QUERY_STRING"),
+                                             environ.get("RAW_URI"))).encode("latin-1") + ident()
+        start_response("200 OK", [("Content-Type", "text/plain"), ("Content-Length", str(len(body)))])
+        return [body]
     if path == "/sleep":
         time.sleep(float(q.get("t", ["0.1"])[0]))
     elif path == "/hang":
